@@ -223,3 +223,9 @@ FACETS = [
     Facet('np/C24-group', f_c24, kind='enum', cases=lambda t, s, n: ({'i': i} for i in range(24)), exhaustive=lambda t: True),
     Facet('np/rejections', f_reject, kind='enum', cases=enum_reject, exhaustive=lambda t: True),
 ]
+
+
+# ---- named gates placed on registers of 9..70 qubits behind overlapping layers, labels as Python ints or NumPy integers of several widths
+from checks import c09 as _c09
+FACETS.append(Facet('np/placements-large-registers', _c09.f_big_circuit, strategy=lambda t: _c09.st_big_circuit('np', ['H', 'S', 'X', 'Y', 'Z', 'C', 'CNOT']),
+                    examples={'quick': 400, 'thorough': 20000}, shards={'quick': 2, 'thorough': 8}))
